@@ -168,6 +168,44 @@ def build_message(tier, seed):
                     d.support.append(f"const N: usize = {n};")
                     d.vals.append(Vld(k, "N", n))
                 d.derives = ["Debug", "FromStr"]
+    # several validators in one declaration: every variant's text must stay truthful next to the others
+    # (bounds far apart, so the neighbourhood of one bound satisfies the other)
+    for ty in (["i32", "u8", "i64"] if tier == "quick" else list(INT_TYPES)):
+        lo_v, hi_v = (20, 200) if ty == "u8" else (-500 if ty[0] == "i" else 20, 5000)
+        for lk, uk in itertools.product(["greater", "greater_or_equal"], ["less", "less_or_equal"]):
+            for order in (0, 1):
+                d = b.new(inner_int(ty), tags=tags)
+                vals = [int_bound(lk, ty, lo_v, "lit", d), int_bound(uk, ty, hi_v, "const" if order else "lit", d, "HI")]
+                if order:
+                    vals.reverse()
+                d.vals = vals
+                if (order + len(b.decls)) % 3 == 0:
+                    add_predicate(d, "*x != 77", "closure")
+                d.derives = ["Debug", "FromStr"]
+    for ty in FLOAT_TYPES:
+        for lk, uk in itertools.product(["greater", "greater_or_equal"], ["less", "less_or_equal"]):
+            for order in (0, 1):
+                d = b.new(inner_float(ty), tags=tags)
+                vals = [float_bound(lk, ty, "-500.0", None, Fraction(-500), d), float_bound(uk, ty, "5000.0", None, Fraction(5000), d)]
+                if order:
+                    vals.reverse()
+                if (order + len(b.decls)) % 2 == 0:
+                    vals.insert(1, Vld("finite"))
+                d.vals = vals
+                d.derives = ["Debug", "FromStr"]
+    for mn, mx in ((2, 40), (3, 300)):
+        for order in (0, 1):
+            for extra in ((), ("not_empty",)):
+                d = b.new(inner_string(), tags=tags)
+                vals = [Vld("len_char_min", str(mn), mn), Vld("len_char_max", str(mx), mx)]
+                if order:
+                    vals.reverse()
+                    d.support.append("const MN: usize = %d;" % mn)
+                    vals[1] = Vld("len_char_min", "MN", mn)
+                for e in extra:
+                    vals.insert(1, Vld(e))
+                d.vals = vals
+                d.derives = ["Debug", "FromStr"]
     return b.decls
 
 
